@@ -1,4 +1,4 @@
-\* U1 (quick): one group, one permission change; as-intended design
+\* U1 (thorough): p2p subscription AND a group between the same two users, one session each; as-intended design
 CONSTANTS
   Users = {"u1", "u2"}
   UserOrder <- c_UserOrder2
@@ -7,8 +7,8 @@ CONSTANTS
   SessUser <- c_SessUser2
   Groups = {"g1"}
   GroupOrder <- c_Groups1
-  P2Ps = {}
-  Ends <- c_NoEnds
+  P2Ps = {"p12"}
+  Ends <- c_Ends12
   Owner <- c_Owner1
   Strangers = {}
   DEV_TwoStepUnload = FALSE
@@ -23,7 +23,7 @@ CONSTANTS
   Kinds = {"me", "grp", "member", "mute"}
   MaxMbox = 3
   MaxUnloads = 2
-  MaxPerm = 1
+  MaxPerm = 2
   MaxBg = 0
   MaxDepth = 0
   DumpPrefix = ""
